@@ -105,6 +105,18 @@ theorem ring_disjoint_nil' (box : Bound α) (inp : List (Pt α))
     · exact key _ (conv_y_lt box.lo.y) h (fun v hb hc => absurd hb.2.2.1 (not_le.2 hc))
     · exact key _ (conv_lt_y box.hi.y) h (fun v hb hc => absurd hb.2.2.2 (not_le.2 hc))
 
+/-- the general form of `ring_disjoint_nil'`: ANY convex set (`Conv`: closed under taking points of
+    segments) that contains every vertex and has no point in the box — the ring's convex hull misses the box -/
+theorem ring_hull_disjoint_nil' (box : Bound α) (inp : List (Pt α)) (C : Pt α → Prop) (hC : Conv C)
+    (hin : ∀ v ∈ inp, C v) (hno : ∀ v, InBox box v → ¬ C v) : ring box inp = some [] := by
+  cases inp with
+  | nil => rfl
+  | cons f t =>
+    rw [ring_cons_eq]
+    obtain ⟨l, hl, hl'⟩ := chain_spec box (ptEqB f ((f :: t).getLast?.getD f)) (f :: t) hC hin
+    have : l = [] := List.eq_nil_iff_forall_not_mem.2 (fun v hv => hno v (hl' v hv).1 (hl' v hv).2)
+    rw [hl, this]; rfl
+
 theorem ring_closed' (box : Bound α) (inp out : List (Pt α)) (hc : ClosedRing inp) (h : ring box inp = some out)
     (hne : out ≠ []) : ClosedRing out := by
   obtain ⟨hn, hhl⟩ := hc
@@ -530,6 +542,10 @@ theorem ring_disjoint_nil' (box : Bound α) (inp : List (Pt α))
     (h : (∀ v ∈ inp, v.x < box.lo.x) ∨ (∀ v ∈ inp, v.x > box.hi.x) ∨ (∀ v ∈ inp, v.y < box.lo.y) ∨ (∀ v ∈ inp, v.y > box.hi.y)) :
     ring box inp = some [] :=
   C08.ring_disjoint_nil' box inp h
+
+theorem ring_hull_disjoint_nil' (box : Bound α) (inp : List (Pt α)) (C : Pt α → Prop) (hC : C08.Conv C)
+    (hin : ∀ v ∈ inp, C v) (hno : ∀ v, InBox box v → ¬ C v) : ring box inp = some [] :=
+  C08.ring_hull_disjoint_nil' box inp C hC hin hno
 
 theorem ring_closed' (box : Bound α) (inp out : List (Pt α)) (hc : ClosedRing inp) (h : ring box inp = some out)
     (hne : out ≠ []) : ClosedRing out :=
